@@ -33,6 +33,8 @@ type SpecCtx struct {
 	fc      *FuncContract
 	self    *SV
 	depth   int
+	loop    *loopInfo
+	localSt *St // state in which local variables are read (always the current one, also under old())
 }
 
 func (c *SpecCtx) withState(st *St) *SpecCtx {
@@ -54,6 +56,13 @@ func (c *SpecCtx) bind(name string, v SV) *SpecCtx {
 // evalClause evaluates a clause of the function executing in fr.
 func (e *Enc) evalClause(fr *Frame, c *Clause, cur, old *St, extra map[string]SV, locals bool) (string, error) {
 	ctx := e.frameCtx(fr, cur, old, locals)
+	if c.Loop > 0 {
+		for _, li := range fr.loops {
+			if li.ord == c.Loop {
+				ctx.loop = li
+			}
+		}
+	}
 	for k, v := range extra {
 		ctx.params[k] = v
 	}
@@ -88,7 +97,7 @@ func (e *Enc) frameCtx(fr *Frame, cur, old *St, locals bool) *SpecCtx {
 	if root.Pkg != nil {
 		pkg = root.Pkg.Pkg.Path()
 	}
-	return &SpecCtx{e: e, pkg: pkg, pos: fr.fn.Pos(), params: env, cur: cur, old: old, fr: fr, locals: locals, sig: fr.fn.Signature, fc: fr.contract}
+	return &SpecCtx{e: e, pkg: pkg, pos: fr.fn.Pos(), params: env, cur: cur, old: old, fr: fr, locals: locals, sig: fr.fn.Signature, fc: fr.contract, localSt: cur}
 }
 
 func (e *Enc) typesPkg(path string) *types.Package {
@@ -281,15 +290,59 @@ func (e *Enc) evalIdent(name string, ctx *SpecCtx) (SV, error) {
 			}
 		}
 	}
-	if name == "$visited" && ctx.fr != nil {
-		// the visited-set of the innermost active map range of this frame
-		best := ""
-		for _, cn := range e.compOrder {
-			if strings.HasPrefix(cn, fmt.Sprintf("visited_f%d_", ctx.fr.id)) {
-				if _, ok := ctx.cur.v[cn]; ok {
-					best = cn
+	if name == "$start" && ctx.fr != nil && ctx.loop != nil {
+		// key set of the ranged map when the loop's range statement started
+		for _, ins := range ctx.loop.head.Instrs {
+			if nx, ok := ins.(*ssa.Next); ok {
+				if it := ctx.fr.regs[nx.Iter].It; it != nil && it.startDom != "" {
+					ks := e.sortOf(it.mapTyp.Key())
+					return SV{T: it.startDom, Sort: "(Array " + ks + " Bool)"}, nil
 				}
 			}
+		}
+		return SV{}, fmt.Errorf("$start: loop is not a map range")
+	}
+	if strings.HasPrefix(name, "$visited") && ctx.fr != nil {
+		// the visited-set of the map range driving the loop this invariant belongs to
+		// ($visited#k: of the k-th loop of the function)
+		best := ""
+		li := ctx.loop
+		if i := strings.Index(name, "#"); i >= 0 {
+			k := 0
+			fmt.Sscanf(name[i+1:], "%d", &k)
+			li = nil
+			for _, l := range ctx.fr.loops {
+				if l.ord == k {
+					li = l
+				}
+			}
+		}
+		if li != nil {
+			// the Next instruction of the loop head block (or, failing that, of any loop block
+			// that is not part of a nested loop)
+			var nx *ssa.Next
+			for _, ins := range li.head.Instrs {
+				if n, ok := ins.(*ssa.Next); ok {
+					nx = n
+				}
+			}
+			if nx != nil {
+				if r, ok := nx.Iter.(*ssa.Range); ok {
+					best = fmt.Sprintf("visited_f%d_%s", ctx.fr.id, r.Name())
+				}
+			}
+		}
+		if best == "" {
+			for _, cn := range e.compOrder {
+				if strings.HasPrefix(cn, fmt.Sprintf("visited_f%d_", ctx.fr.id)) {
+					if _, ok := ctx.cur.v[cn]; ok {
+						best = cn
+					}
+				}
+			}
+		}
+		if best != "" && e.comps[best] == nil {
+			best = ""
 		}
 		if best == "" {
 			return SV{}, fmt.Errorf("$visited: no active map range")
@@ -297,8 +350,12 @@ func (e *Enc) evalIdent(name string, ctx *SpecCtx) (SV, error) {
 		c := e.comps[best]
 		return SV{T: e.get(ctx.cur, c), Sort: c.Sort}, nil
 	}
+	lst := ctx.localSt
+	if lst == nil {
+		lst = ctx.cur
+	}
 	if ctx.locals && ctx.fr != nil {
-		if sv, ok := e.lookupLocal(ctx.fr, name, ctx.cur); ok {
+		if sv, ok := e.lookupLocal(ctx.fr, name, lst); ok {
 			return sv, nil
 		}
 	}
@@ -311,7 +368,7 @@ func (e *Enc) evalIdent(name string, ctx *SpecCtx) (SV, error) {
 	}
 	if ctx.fr != nil && !ctx.locals {
 		// allow locals in ensures when unambiguous (e.g. named results are locals in naive form)
-		if sv, ok := e.lookupLocal(ctx.fr, name, ctx.cur); ok {
+		if sv, ok := e.lookupLocal(ctx.fr, name, lst); ok {
 			return sv, nil
 		}
 	}
@@ -730,7 +787,6 @@ func (e *Enc) evalCall(n *SCall, ctx *SpecCtx) (SV, error) {
 			return SV{}, fmt.Errorf("old() not available here")
 		}
 		c2 := ctx.withState(ctx.old)
-		c2.locals = false
 		return e.evalSpec(n.Args[0], c2)
 	case "len":
 		v, err := arg(0)
